@@ -10,18 +10,19 @@ E1_ADD = (' Every E1 plan additionally executes the witnesses and solver-generat
           'the same encoding twice on one instance (elsewhere and in a loop, different flags / IT state in between), instructions in the last bytes below 2^32, '
           'and checks a bystander instance and the scrambled in-memory configuration after every case; and it runs histories on one long-lived instance '
           '(vf/props/history.py: the plan\'s instruction several times between PSR writes by every route, exception round trips through handler stubs, injected interrupts, '
-          'exclusive-monitor traffic, trapped coprocessor accesses, direct exception returns with single-bit PSR changes, the same word in both instruction sets), every step compared with the reference.')
+          'exclusive-monitor traffic, trapped coprocessor accesses, direct exception returns with single-bit PSR changes, the same word in both instruction sets, and what an embedder does between steps: system registers written through the API, the register file swapped for a deep copy, asynchronous aborts, carrying on after a NotImplementedError), every step compared with the reference; '
+          'metamorphic embedder-level relations (a deep copy taken before programming stays untouched, a decoded opcode object executed again on two instances, an embedder-defined RAM subclass, large / odd-boundary devices).')
 ADD = {
     'C06': ' Operand extraction: paths THROUGH from_bitarray of every selected class and through the reference operand decode are enumerated too (every branch negated in turn) plus the words next to every constant an order comparison used; field-corner words per row under arch 4/5/6/7 and a strict pass with VFP/SIMD configured; running decode (same word twice on one instance).',
     'C07': ' Operand extraction: paths THROUGH from_bitarray of every selected class and through the reference operand decode are enumerated too (every branch negated in turn) plus the words next to every constant an order comparison used; field-corner words per row under arch 4/5/6/7 and a strict pass with VFP/SIMD configured; running decode (same word twice on one instance).',
     'C08': ' Entries caused by instructions (SVC, UDF, BKPT, SMC, trapped WFI / WFE / coprocessor accesses, aborting loads) are also taken inside IT blocks with a passing condition on every configuration.',
     'C15': ' Also: long-descriptor cells for the Hyp translation regime (HTTBR / HTCR / HMAIR, faults reported in HSR / HDFAR), Non-secure guest cells under generated stage-2 tables (stage 1 off or short descriptors; faults on the output address and on the stage-1 walk with HSR / HDFAR / HPFAR), 32-bit Thumb instructions across a page boundary.',
-    'C17': ' Field-view histories: field reads, field writes, whole-register writes and slice writes interleaved on one long-lived register object per class.',
+    'C17': ' Field-view histories: field reads, field writes, whole-register writes and slice writes interleaved on one long-lived register object per class; every register class constructed under a configuration that gives it a reset value.',
     'C10': ' A second E1 plan runs every other encoding row at the 2^31/2^32 operand edges (range invariant after every instruction, also for unmodelled outcomes).',
     'C11': ' The same entries are also caused by instructions (SVC, UDF, SMC, BKPT, trapped WFI/WFE/coprocessor accesses, aborting loads) through emulate_cycle(); ThumbEE interrupted states; implementation-defined vectors at 0.',
     'C12': ' Plus direct calls of cpsr_write_by_instr / spsr_write_by_instr over configuration x mode x 16 byte masks x return flag x NMFI/AW/FW/RFR, and reference-free entry + canonical-return round trips.',
     'C16': ' Devices and accesses cover the 40-bit physical space, maps of up to 12 devices, from_memory_list called twice with the same list, instruction-level edge steps with a value differential.',
-    'C18': ' Also: every load/store path of both decoders under a valid stage-2 table whose data pages fault, every coprocessor encoding x p0..p15 under random trap controls, IRQ/FIQ/reset/event injections between program steps, Hyp MMU on, register-object integrity.',
+    'C18': ' One instance steps through 140 000 (600 000 thorough) distinct words with UNDEFINED words repeated. Also: every load/store path of both decoders under a valid stage-2 table whose data pages fault, every coprocessor encoding x p0..p15 under random trap controls, IRQ/FIQ/reset/event injections between program steps, Hyp MMU on, register-object integrity.',
     'C19': ' The second clause also runs under VMSA (short- and long-descriptor tables from C15\'s builder) and with accesses straddling an accessible and a protected MPU region; Monitor mode after a User-mode step is a violation.',
     'C20': ' Further legs: fresh-interpreter scripts (an instance created after instances of other configurations must equal the trace of a process that only ever loaded its configuration), the interleaving machine also injects IRQ / FIQ / reset and computes its expectations after the history (the harness never touches the module-level configuration in between), memory-hub access histories, Non-secure guests under stage-2 translation.',
 }
